@@ -175,7 +175,7 @@ class Excel:
 
         return cls({
             'data': worksheets_data,
-            'titles': wb.sheetnames,
+            'titles': worksheets_titles,
             'suspicious_cells': suspicious_cells,
             'sheets_size': sheets_size,
         })
